@@ -44,6 +44,8 @@ EVENTS = {
     "shape2": (None, ["M", "N"], lambda o, x: prod(o),
                {"partitioning": {"K": ["uniform_shape(2)", "uniform_shape(1)"], "M": ["uniform_shape(2)"]},
                 "loop-order": ["K2", "M1", "K1", "N", "M0", "K0"]}),
+    "shapeK2": (None, ["M", "N"], lambda o, x: prod(o), {"partitioning": {"K": ["uniform_shape(2)"]}}),
+    "shapeK3": (None, ["M", "N"], lambda o, x: prod(o), {"partitioning": {"K": ["uniform_shape(3)"]}}),
     "shapeout": (MN, ["M", "N"], lambda o, x: ew(o, x),
                  {"partitioning": {"N": ["uniform_shape(2)"]}, "loop-order": ["N1", "M", "N0"]}),
     "occ": (MN, ["M", "N"], lambda o, x: ew(o, x), {"partitioning": {"M": ["uniform_occupancy(%(x)s.1)"]}}),
@@ -66,7 +68,7 @@ EVENTS = {
     "iocc": (IJ, ["I", "J"], lambda o, x: E(o, ["i", "j"], times(T(x, "i", "j"), T("G", "i", "j"))),
              {"partitioning": {"I": ["uniform_occupancy(G.1)"]}}),
 }
-QUICK_EVENTS = ["prod", "sum", "take", "copy", "shape2", "shapeout", "occ", "flat", "flat2", "swz", "conv", "conv2", "convc", "ishape", "st", "rank0"]
+QUICK_EVENTS = ["prod", "sum", "take", "copy", "shape2", "shapeK2", "shapeK3", "shapeout", "occ", "flat", "flat2", "swz", "conv", "conv2", "convc", "ishape", "st", "rank0"]
 
 
 def out_name(i, ranks):
